@@ -46,6 +46,15 @@ package decimal
 //@            ((e < MaxExp && z.form == finite && z.exp == e + 1 && len(z.mant) == n && S == (B/10)*P(n-1))
 //@             || (e >= MaxExp && z.form == inf)))))
 
+// Proof vocabulary for round(): with r the position of the rounding digit,
+// R = 10^r as p10(r%19)*P(r/19), L = the digits below the rounding digit, S = the kept
+// words with the digits below the precision cleared.
+//@ define rq_R(r) = p10(r%19)*P(r/19)
+//@ define rq_L(o, r) = (o[r/19] % p10(r%19))*P(r/19) + V(o, 0, r/19)
+//@ define rq_S(o, k, mm, lsd) = V(o, k, mm) - o[k] % lsd
+//@ define rq_n(z) = (z.prec + 18)/19
+//@ define rq_ntz(z) = 19*((z.prec + 18)/19) - z.prec
+
 // ---------------------------------------------------------------------------
 // tiny helpers, executed inline
 
@@ -71,21 +80,75 @@ package decimal
 //@   ensures[accrange,C08] 0 - 1 <= z.acc && z.acc <= 1
 //@   ensures[buffer,C18] z.mant.arr == old(z.mant.arr) && z.mant.off == old(z.mant.off) && cap(z.mant) == old(cap(z.mant))
 //@   ensures[len,C08] len(z.mant) <= old(len(z.mant))
-//@   ensures[shape,C08,assumed] z.form == finite ==> mantok(z) && 19*len(z.mant) < z.prec + 19 && (19*len(z.mant) > z.prec ==> z.mant[0] % p10(19*len(z.mant) - z.prec) == 0)
-//@   ensures[rounded,C01,C02,assumed] old(z.form) == finite ==> rounded(z, old(V(z.mant)), old(len(z.mant)), old(z.exp), sbit != 0)
-//@   hint[ret@split] V_split(old(z.mant), 0, m-n, m)
-//@   hint[ret@split] V_low(old(z.mant), m-n, m)
-//@   hint[ret@split] m > n ==> Vdef(old(z.mant), 0, m-n-1)
-//@   hint[ret@split] m > n ==> Pdef(m-n-1)
-//@   hint[ret@split] V_zero_iff(old(z.mant), 0, r/19)
-//@   hint[ret@split] V_bounds(old(z.mant), 0, m-n)
-//@   hint[ret@split] V_bounds(old(z.mant), m-n, m)
-//@   hint[ret@split] V_bounds(old(z.mant), 0, r/19)
-//@   hint[ret@split] Pdef(n-1)
-//@   hint[ret@split] P_add(m-n, n)
+//@   ensures[shape,C08] z.form == finite ==> mantok(z) && 19*len(z.mant) < z.prec + 19 && (19*len(z.mant) > z.prec ==> z.mant[0] % p10(19*len(z.mant) - z.prec) == 0)
+//@   ensures[rounded,C01,C02] old(z.form) == finite ==> rounded(z, old(V(z.mant)), old(len(z.mant)), old(z.exp), sbit != 0)
+//@   split (z.form == finite ? 19*((z.prec+18)/19) - z.prec : 0) in 0..18 for rounded,shape
+//@   hint[after:digit#1@split] V_split(old(z.mant), 0, m-rq_n(z), m)
+//@   hint[after:digit#1@split] V_low(old(z.mant), m-rq_n(z), m)
+//@   hint[after:digit#1@split] m > rq_n(z) ==> Vdef(old(z.mant), 0, m-rq_n(z)-1)
+//@   hint[after:digit#1@split] m > rq_n(z) ==> Pdef(m-rq_n(z)-1)
+//@   hint[after:digit#1@split] V_zero_iff(old(z.mant), 0, r/19)
+//@   hint[after:digit#1@split] V_bounds(old(z.mant), 0, m-rq_n(z))
+//@   hint[after:digit#1@split] V_bounds(old(z.mant), m-rq_n(z), m)
+//@   hint[after:digit#1@split] V_bounds(old(z.mant), 0, r/19)
+//@   hint[after:digit#1@split] Pdef(rq_n(z)-1)
+//@   hint[after:digit#1@split] P_add(m-rq_n(z), rq_n(z))
+//@   hint[after:digit#1@split] Pdef(r/19)
+//@   hint[after:digit#1@split] mul_mono(old(z.mant[r/19]) % p10(r%19), p10(r%19) - 1, P(r/19))
+//@   hint[after:digit#1@split] mul_mono(0, old(z.mant[r/19]) % p10(r%19), P(r/19))
+//@   hint[after:digit#1@split] assert(m >= rq_n(z) && (rq_ntz(z) >= 1 ==> r/19 == m-rq_n(z) && r%19 == rq_ntz(z)-1) && (rq_ntz(z) == 0 ==> m > rq_n(z) && r/19 == m-rq_n(z)-1 && r%19 == 18))
+//@   hint[after:digit#1@split] assert(0 <= old(rq_L(z.mant, r)) && old(rq_L(z.mant, r)) < rq_R(r))
+//@   hint[after:digit#1@split] assert(P(m-rq_n(z))*p10(rq_ntz(z)) == 10*rq_R(r))
+//@   hint[after:digit#1@split] assert(old(z.mant[r/19]) % p10(r%19 + 1) == result*p10(r%19) + old(z.mant[r/19]) % p10(r%19))
+//@   hint[after:digit#1@split] mul_eq(old(z.mant[r/19]) % p10(r%19 + 1), result*p10(r%19) + old(z.mant[r/19]) % p10(r%19), P(r/19))
+//@   hint[after:digit#1@split] assert(old(V(z.mant)) - old(rq_S(z.mant, m-rq_n(z), m, p10(rq_ntz(z))))*P(m-rq_n(z)) == result*rq_R(r) + old(rq_L(z.mant, r)))
+//@   hint[after:digit#1@split] round_cmp(result, rq_R(r), old(rq_L(z.mant, r)))
+//@   hint[after:digit#1@split] assert((old(rq_S(z.mant, m-rq_n(z), m, p10(rq_ntz(z)))) / p10(rq_ntz(z))) % 2 == (old(z.mant[m-rq_n(z)]) / p10(rq_ntz(z))) % 2 && old(rq_S(z.mant, m-rq_n(z), m, p10(rq_ntz(z)))) % p10(rq_ntz(z)) == 0)
+//@   hint[after:sticky#1@split] assert(result == 0 <==> old(rq_L(z.mant, r)) == 0)
+//@   hint[after:pow10#1@split] assert(n == rq_n(z) && ntz == rq_ntz(z) && result == p10(rq_ntz(z)) && m >= n)
+//@   hint[after:pow10#1@split] assert(P(m-n)*p10(ntz) == 10*rq_R(r))
+//@   hint[after:pow10#1@split] assert(old(V(z.mant)) - old(rq_S(z.mant, m-n, m, result))*P(m-n) == rdigit*rq_R(r) + old(rq_L(z.mant, r)))
+//@   hint[after:pow10#1@split] assert(len(z.mant) == n)
+//@   hint[after:pow10#1@split] assert(z.mant[0] == old(z.mant[m-n]))
+//@   hint[after:pow10#1@split] assert(z.mant[n-1] == old(z.mant[m-1]) && z.mant[n-1] >= B/10)
+//@   hint[after:pow10#1@split] assert(wordsok(z.mant))
+//@   hint[after:pow10#1@split] assert(V(z.mant) == V(old(z.mant), m-n, m))
+//@   hint[after:add10VW#1@split] V_low(z.mant, 0, n)
+//@   hint[after:add10VW#1@split] n >= 1 ==> V_nonneg(z.mant, 1, n)
+//@   hint[after:add10VW#1@split] n >= 1 ==> V_zero_iff(z.mant, 1, n)
+//@   hint[after:add10VW#1@split] Pdef(n-1)
+//@   hint[after:add10VW#1@split] mul_eq(P(n), B*P(n-1), result)
+//@   hint[after:add10VW#1@split] assert(z.mant[0] + B*V(z.mant, 1, n) + B*(result*P(n-1)) == old(z.mant[m-n]) + B*V(old(z.mant), m-n+1, m) + lsd)
+//@   hint[after:add10VW#1@split] assert(z.mant[0] % lsd == old(z.mant[m-n]) % lsd)
+//@   hint[after:add10VW#1@split] assert(result == 1 ==> z.mant[0] == old(z.mant[m-n]) % lsd && (forall j in 1..n :: z.mant[j] == 0))
+//@   hint[after:add10VW#1@split] assert(V(z.mant) - z.mant[0] % lsd + result*P(n) == old(rq_S(z.mant, m-n, m, lsd)) + lsd)
+//@   hint[after:add10VW#1@split] assert(result == 1 ==> V(z.mant) == z.mant[0] && z.mant[0] < lsd)
+//@   hint[after:add10VW#1@split] assert(result == 1 ==> old(rq_S(z.mant, m-n, m, lsd)) + lsd == P(n))
 //@   hint[ret@split] V_low(z.mant, 0, n)
 //@   hint[ret@split] V_bounds(z.mant, 0, n)
 //@   hint[ret@split] V_top(z.mant, 0, n)
+//@   hint[ret@split] assert(z.exp != old(z.exp) ==> z.mant[n-1] == B/10 && (forall j in 0..n-1 :: z.mant[j] == 0))
+//@   hint[ret@split] z.exp != old(z.exp) ==> V_zero(z.mant, 0, n-1)
+//@   hint[ret@split] V_top(old(z.mant), m-n, m)
+//@   hint[ret@split] mul_mono(B/10, old(z.mant[m-1]), P(n-1))
+//@   hint[ret@split] Vdef(z.mant, 0, n-1)
+//@   hint[ret@split] V_bounds(z.mant, 0, n-1)
+//@   hint[ret@split] z.mant[n-1] + 1 <= B/10 ==> mul_mono(z.mant[n-1] + 1, B/10, P(n-1))
+//@   hint[ret@split] assert(z.form == finite && z.exp == old(z.exp) ==> V(z.mant) == old(rq_S(z.mant, m-n, m, lsd)) || V(z.mant) == old(rq_S(z.mant, m-n, m, lsd)) + lsd)
+//@   hint[ret@split] assert(z.form == finite && z.exp != old(z.exp) ==> V(z.mant) == (B/10)*P(n-1) && old(rq_S(z.mant, m-n, m, lsd)) + lsd == P(n))
+//@   hint[ret@split] assert(z.form != finite ==> old(rq_S(z.mant, m-n, m, lsd)) + lsd == P(n))
+//@   hint[ret@split] assert(!inc && n >= 2 ==> z.mant[n-1] == old(z.mant[m-1]))
+//@   hint[ret@split] assert(z.form == finite ==> z.mant[n-1] >= B/10)
+//@   hint[ret@split] assert((!inc ==> V(z.mant) == old(rq_S(z.mant, m-n, m, lsd))) && (inc && z.form == finite && z.exp == old(z.exp) ==> V(z.mant) == old(rq_S(z.mant, m-n, m, lsd)) + lsd))
+//@   hint[ret@split] !inc ==> mul_eq(V(z.mant), old(rq_S(z.mant, m-n, m, lsd)), P(m-n))
+//@   hint[ret@split] inc && z.form == finite && z.exp == old(z.exp) ==> mul_eq(V(z.mant), old(rq_S(z.mant, m-n, m, lsd)) + lsd, P(m-n))
+//@   hint[ret@split] assert(inc <==> rnd_inc(z.mode, z.neg, rdigit*rq_R(r) + old(rq_L(z.mant, r)), 10*rq_R(r), old(sbit) != 0, (old(rq_S(z.mant, m-n, m, lsd))/lsd) % 2 == 1))
+//@   hint[ret@split] assert(z.acc == rnd_acc(z.neg, rdigit*rq_R(r) + old(rq_L(z.mant, r)), old(sbit) != 0, inc))
+//@   hint[ret@split] Pdef(n-1)
+//@   hint[ret@split] P_add(m-n, n)
+//@   hint[ret@split] old(rq_S(z.mant, m-n, m, lsd)) + lsd == P(n) ==> mul_eq(old(rq_S(z.mant, m-n, m, lsd)) + lsd, P(n), P(m-n))
+//@   hint[ret@split] assert(old(rq_S(z.mant, m-n, m, lsd)) + lsd == P(n) ==> (old(rq_S(z.mant, m-n, m, lsd))/lsd) % 2 == 1)
+//@   hint[ret@split] assert(old(rq_S(z.mant, m-n, m, lsd)) + lsd == P(n) ==> old(V(z.mant)) - P(m) + 10*rq_R(r) == rdigit*rq_R(r) + old(rq_L(z.mant, r)))
 //@   tags safety C04
 //@   tags support C08
 
